@@ -178,6 +178,8 @@ attribute keyword. -/
 def NameLineOK (l : Str) : Prop :=
   NoDelim '=' l ∧ trim l ≠ [] ∧ (trim l).takeWhile (· != '(') ∉ kwds
 
+instance (l : Str) : Decidable (NameLineOK l) := by unfold NameLineOK; infer_instance
+
 /-- A name (one or several lines) that `parse_header` reads back unchanged. -/
 structure NameOK (name : Str) : Prop where
   lines : ∀ l ∈ splitIncl (name ++ ['\n']), NameLineOK l
